@@ -199,17 +199,24 @@ def oracle_real(py, pyi):
   return G.oracle(py, pyi, out)
 
 
-def unexplained(py, pyi, viol):
+def unexplained(py, pyi, viol, inferred=False):
   reg = regions(py, pyi)
+  if inferred:
+    reg = reg - {"dotted-any"}     # that region is about stubs pytype did not write
   return {c: m for c, m in viol.items() if not (TOLERATE.get(c, set()) & reg)}
 
 
 # ----------------------------------------------------------------------------
 # K
 # ----------------------------------------------------------------------------
-def compare(py, pyi, line, real=None):
+def compare(py, pyi, line, real=None, kind=None):
   """one pair: real vs model answer `line`.  -> (disagreement dict | None, info dict)"""
   info = {"regions": []}
+  if kind == "inferred" and G.stub_has_dotted_any(pyi):
+    # the `typing.Any` finding (c20-dotted-any) is about stubs written by someone else: the stub pytype itself infers
+    # spells Any/Never with a from-import, never qualified — otherwise merge-pyi's Any/Never filter would not see them
+    return {"py": py, "pyi": pyi, "what": "the stub pytype inferred spells Any/Never as a dotted name (the merge "
+            "filter only recognises the bare names, so they would be inserted)"}, info
   out, err = real if real is not None else real_merge(py, pyi)
   if line.startswith("bad"):
     return {"py": py, "pyi": pyi, "what": "driver could not read the case: " + line}, info
@@ -304,7 +311,7 @@ def correspond(res, rng, tier):
   hist = {}
   ins_total = 0
   for (kind, py, pyi), line, real in zip(modelled, lines, reals):
-    d, info = compare(py, pyi, line, real)
+    d, info = compare(py, pyi, line, real, kind)
     key = (py, pyi)
     hist[kind] = hist.get(kind, 0) + 1
     for r in info["regions"]:
@@ -419,6 +426,35 @@ def search(res, rng, disagreements, pfail):
       if not pyi.startswith("ERR "):
         cands.append((src, pyi))
   seen_clauses = set()
+  # programs whose inferred stub took part in a disagreement: the property on (program, stub pytype infers now)
+  for d in disagreements:
+    if d.get("kind") != "inferred" or "py" not in d or len(found) >= 2:
+      continue
+    py = d["py"]
+    pyi = _infer(py)
+    if pyi.startswith("ERR ") or not parses(pyi):
+      continue
+    viol = oracle_real(py, pyi)
+    bad = unexplained(py, pyi, viol, inferred=True)
+    for clause in bad:
+      if clause in seen_clauses:
+        continue
+      seen_clauses.add(clause)
+
+      def still(lines, clause=clause):
+        p2 = "\n".join(lines) + "\n"
+        if not parses(p2):
+          return False
+        s2 = _infer(p2)
+        if s2.startswith("ERR ") or not parses(s2):
+          return False
+        return clause in unexplained(p2, s2, oracle_real(p2, s2), inferred=True)
+      small = common.ddmin(py.rstrip("\n").split("\n"), still, budget_s=40)
+      spy = "\n".join(small) + "\n"
+      spyi = _infer(spy)
+      out, err = real_merge(spy, spyi)
+      found.append({"clause": clause, "py": spy, "pyi_inferred_by_pytype": spyi, "merged": out, "merge_error": err,
+                    "violations": unexplained(spy, spyi, oracle_real(spy, spyi), inferred=True).get(clause)})
   for py, pyi in cands:
     if time.time() - t0 > 150 or len(found) >= 3:
       break
